@@ -188,6 +188,9 @@ class FileShim:
                 raise InjectedIOError(f.get("errno", _errno.EACCES), os.strerror(f.get("errno", _errno.EACCES)), path)
             return _FaultyFile(self, real_open(file, mode, *a, **kw), path, mode)
         self.log.append(("open_r", rel, mode))
+        f = self._hit("open_r", path)
+        if f is not None:
+            raise InjectedIOError(f.get("errno", _errno.EIO), os.strerror(f.get("errno", _errno.EIO)), path)
         n = self.reads[rel] = self.reads.get(rel, 0) + 1
         hook = self.read_hooks.get(rel)
         if hook is not None:
